@@ -4,7 +4,36 @@ import (
 	"encoding/json"
 	"fmt"
 	"os"
+	"strings"
+
+	"github.com/luthersystems/elps/lisp"
 )
+
+// callEntry invokes one form through the FunCall / MacroCall / SpecialOpCall entry points.
+func (s *session) callEntry(name, src string) *lisp.LVal {
+	s.nload++
+	exprs, err := s.env.Runtime.Reader.Read(name, strings.NewReader(src))
+	if err != nil || len(exprs) != 1 || exprs[0].Type != lisp.LSExpr || len(exprs[0].Cells) == 0 {
+		fmt.Fprintln(os.Stderr, "call mode needs exactly one call form:", src, err)
+		os.Exit(2)
+	}
+	form := exprs[0]
+	fun := s.env.GetFun(form.Cells[0])
+	if fun.Type == lisp.LError {
+		return fun
+	}
+	args := lisp.SExpr(append([]*lisp.LVal{}, form.Cells[1:]...))
+	switch {
+	case fun.IsMacro():
+		return s.env.MacroCall(fun, args)
+	case fun.IsSpecialOp():
+		return s.env.SpecialOpCall(fun, args)
+	}
+	if s.ctx != nil && s.nload > s.noCtxFirst {
+		return s.env.FunCallContext(s.ctx, fun, args)
+	}
+	return s.env.FunCall(fun, args)
+}
 
 // run: generic program runner.
 //
@@ -21,9 +50,13 @@ type runIn struct {
 	Src  string      `json:"src"`
 	Cfg  *runCfg     `json:"cfg"`
 	Cfgs []runCfg    `json:"cfgs"`
+	// Modes[i] selects the entry point for Seq[i]: "" / "load" = LoadContext; "call" = the element is ONE form
+	// (head literal-args...): head is resolved with GetFun and invoked through FunCallContext / MacroCall /
+	// SpecialOpCall according to its kind, arguments passed as written.
+	Modes []string `json:"modes"`
 }
 
-func runSeq(cfg runCfg, seq []string) J {
+func runSeq(cfg runCfg, seq []string, modes ...string) J {
 	s, err := newSession(cfg)
 	if err != nil {
 		fmt.Fprintln(os.Stderr, err)
@@ -32,11 +65,23 @@ func runSeq(cfg runCfg, seq []string) J {
 	var evals []interface{}
 	for i, src := range seq {
 		s.probes = nil
+		s.errIdx = nil
 		s.stderr.Reset()
-		v := s.load(fmt.Sprintf("t%d", i), src)
+		var v *lisp.LVal
+		if i < len(modes) && modes[i] == "call" {
+			v = s.callEntry(fmt.Sprintf("t%d", i), src)
+		} else {
+			v = s.load(fmt.Sprintf("t%d", i), src)
+		}
 		e := J{"v": jv(v), "steps": s.env.Runtime.Steps(), "total": s.env.Runtime.TotalSteps(), "rest": s.restState(), "probes": s.probes, "stderr": s.stderr.String()}
 		if ei := errInfo(v); ei != nil {
 			e["err"] = ei
+			e["errid"] = s.errID(v)
+			var data []interface{}
+			for _, c := range v.Cells {
+				data = append(data, jv(c))
+			}
+			e["data"] = data
 		}
 		if s.ctx != nil {
 			e["polls"] = s.ctx.n
@@ -74,7 +119,7 @@ func init() {
 			}
 			var runs []interface{}
 			for _, c := range cfgs {
-				runs = append(runs, runSeq(c, seq))
+				runs = append(runs, runSeq(c, seq, in.Modes...))
 			}
 			out.emit(J{"id": in.ID, "runs": runs})
 		})
